@@ -177,6 +177,10 @@ func (s *Swarm) SendTo(name mesh.PeerName, msg *message.Message) error {
 
 // ID returns the local node ID.
 func (s *Swarm) ID() uint64 {
+	if s == nil {
+		return 0 // No cluster configured, see NumPeers()
+	}
+
 	return uint64(s.name)
 }
 
